@@ -131,6 +131,9 @@ def unchanged(snaps, *arrays) -> bool:
 
 
 # ================================================================================================ C08.quantum_bracket
+PRED_DTYPES = (np.int64, np.uint8, float, bool)
+
+
 def qb_cases(tier, seed):
     yield from game_cases(tier, seed)
 
@@ -153,7 +156,9 @@ def qb_check(case):
     nontrivial = cm < tot
 
     P = R.prob_floats(W)
-    F = np.array(f, dtype=np.int64)
+    # predicate dtype cycles with the predicate code: int64, uint8, float64, bool (unsigned / boolean 0-1 matrices are ordinary ways of
+    # writing a predicate; (-1) ** uint8 used to overflow, repaired in toqito)
+    F = np.array(f, dtype=PRED_DTYPES[case["code"] % 4])
     snaps = snap(P, F)
     q1 = {}
     obs = []
@@ -259,7 +264,7 @@ def cl_check(case):
         raise RuntimeError("harness: +-1 brute force and general-game brute force disagree")
     nontrivial = cm < tot
     P = R.prob_floats(W)
-    F = np.array(f, dtype=np.int64 if case["code"] % 2 == 0 else float)
+    F = np.array(f, dtype=PRED_DTYPES[(case["code"] + 1) % 4])
     snaps = snap(P, F)
     g, exc = call(XORGame, P, F, reps=reps)
     if exc is not None:
@@ -642,7 +647,7 @@ def _alph_games(tier, seed):
     sh = shapes(tier)
     gen = {f"{x}x{y}:{k}": weights(x, y, k) for x, y in sh for k in dist_keys(tier) if k.startswith("g") and x * y <= 4}
     return {"shapes": [list(s) for s in sh], "predicates": "all 2^(X*Y) 0/1 matrices per shape",
-            "distributions": dist_keys(tier), "tol": [None, 1e-6], "reps": [1, 2, 3], "pred_dtype": ["int64", "float64"],
+            "distributions": dist_keys(tier), "tol": [None, 1e-6], "reps": [1, 2, 3], "pred_dtype": ["int64", "uint8", "float64", "bool"],
             "generic_weights(small shapes)": gen}
 
 
